@@ -13,7 +13,7 @@ theorem pm_res (acc : Annotation) (dm : Option (Int × Bool)) (c : Char) (t : Li
     parseMiddle acc dm (c :: t) = parseMiddle { acc with seq := acc.seq ++ [c] } dm t := by
   rw [parseMiddle.eq_def]; simp [hc]
 
-theorem pm_mods (plus : Bool) (acc : Annotation) (dm : Option (Int × Bool)) (l : List Mod) (hne : l ≠ [])
+theorem pm_mods (plus : Plus) (acc : Annotation) (dm : Option (Int × Bool)) (l : List Mod) (hne : l ≠ [])
     (hl : l.all (canonMod '[' ']') = true) (t : List Char) (ht : MidStop t) :
     parseMiddle acc dm (serializeMods '[' ']' plus l ++ t) = parseMiddle (addInternal acc l) dm t := by
   cases l with
@@ -50,7 +50,7 @@ theorem pm_close_none (acc : Annotation) (st : Int) (amb : Bool) (t : List Char)
   have hA : isAA ')' = false := by decide
   simp [hA, ht]
 
-theorem pm_close_mods (plus : Bool) (acc : Annotation) (st : Int) (amb : Bool) (l : List Mod) (hne : l ≠ [])
+theorem pm_close_mods (plus : Plus) (acc : Annotation) (st : Int) (amb : Bool) (l : List Mod) (hne : l ≠ [])
     (hl : l.all (canonMod '[' ']') = true) (t : List Char) (ht : MidStop t) :
     parseMiddle acc (some (st, amb)) (')' :: (serializeMods '[' ']' plus l ++ t)) =
       parseMiddle (addInterval acc ⟨st, Int.ofNat acc.seq.length, amb, some l⟩) none t := by
@@ -68,7 +68,7 @@ theorem pm_close_mods (plus : Bool) (acc : Annotation) (st : Int) (amb : Bool) (
     · rename_i ms' rest' hb
       rw [h2] at hb; cases hb; rfl
 
-theorem pm_cterm (plus : Bool) (acc : Annotation) (dm : Option (Int × Bool)) (l : List Mod)
+theorem pm_cterm (plus : Plus) (acc : Annotation) (dm : Option (Int × Bool)) (l : List Mod)
     (hl : l.all (canonMod '[' ']') = true) (t : List Char) (ht : MidStop t) :
     parseMiddle acc dm ('-' :: (serializeMods '[' ']' plus l ++ t)) =
       .ok ({ acc with cterm := addMods acc.cterm l }, t) := by
@@ -91,9 +91,9 @@ theorem pm_stop (acc : Annotation) (dm : Option (Int × Bool)) (t : List Char)
 
 /-! ### what the serializer writes in front of residue `i` -/
 
-def marksL (plus : Bool) (i : Int) (ws : Bool) (L : List Interval) : List Char := L.flatMap (ivMark plus i ws)
+def marksL (plus : Plus) (i : Int) (ws : Bool) (L : List Interval) : List Char := L.flatMap (ivMark plus i ws)
 
-theorem marksL_past (plus : Bool) (i : Int) (ws : Bool) (L : List Interval)
+theorem marksL_past (plus : Plus) (i : Int) (ws : Bool) (L : List Interval)
     (h : ∀ iv ∈ L, iv.start < iv.stop ∧ iv.stop < i) : marksL plus i ws L = [] := by
   induction L with
   | nil => rfl
@@ -105,7 +105,7 @@ theorem marksL_past (plus : Bool) (i : Int) (ws : Bool) (L : List Interval)
     simp only [marksL, List.flatMap_cons, this, List.nil_append]
     exact ih (fun iv' h' => h iv' (by simp [h']))
 
-theorem marksL_far (plus : Bool) (n i : Int) (ws : Bool) (L : List Interval) (lo : Int)
+theorem marksL_far (plus : Plus) (n i : Int) (ws : Bool) (L : List Interval) (lo : Int)
     (h : canonIntervalList n lo L = true) (hi : i < lo) : marksL plus i ws L = [] := by
   induction L generalizing lo with
   | nil => rfl
@@ -124,7 +124,7 @@ def openMark (i : Int) (ws : Bool) : List Interval → List Char
   | iv :: _ => if ws = true ∧ iv.start = i then '(' :: (if iv.ambiguous then ['?'] else []) else []
 
 /-- no interval is open: only the first remaining interval can start at `i` -/
-theorem marksL_closed (plus : Bool) (n i : Int) (ws : Bool) (L : List Interval)
+theorem marksL_closed (plus : Plus) (n i : Int) (ws : Bool) (L : List Interval)
     (h : canonIntervalList n i L = true) : marksL plus i ws L = openMark i ws L := by
   cases L with
   | nil => rfl
@@ -140,7 +140,7 @@ theorem marksL_closed (plus : Bool) (n i : Int) (ws : Bool) (L : List Interval)
     simp
 
 /-- an interval is open: it closes at `i` (then the next one may open) or nothing is written -/
-theorem marksL_open (plus : Bool) (n i : Int) (ws : Bool) (iv : Interval) (t : List Interval)
+theorem marksL_open (plus : Plus) (n i : Int) (ws : Bool) (iv : Interval) (t : List Interval)
     (h1 : iv.start < i) (h2 : i ≤ iv.stop) (h5 : canonIntervalList n iv.stop t = true) :
     marksL plus i ws (iv :: t) =
       if iv.stop = i then ')' :: (optMods '[' ']' plus iv.mods ++ marksL plus i ws t) else [] := by
@@ -156,7 +156,7 @@ theorem marksL_open (plus : Bool) (n i : Int) (ws : Bool) (iv : Interval) (t : L
     unfold ivMark
     rw [if_neg (by intro hh; omega), if_neg hs]; rfl
 
-theorem marksL_append (plus : Bool) (i : Int) (ws : Bool) (L1 L2 : List Interval) :
+theorem marksL_append (plus : Plus) (i : Int) (ws : Bool) (L1 L2 : List Interval) :
     marksL plus i ws (L1 ++ L2) = marksL plus i ws L1 ++ marksL plus i ws L2 := by
   simp [marksL]
 
@@ -217,7 +217,7 @@ theorem dictExtend_new (k : Int) (ms : List Mod) (d : List (Int × List Mod)) (h
 
 def optL {α} (l : List α) : Option (List α) := if l = [] then none else some l
 
-theorem marksL_head (plus : Bool) (i : Int) (ws : Bool) (L : List Interval) (r : List Char) (x : Char)
+theorem marksL_head (plus : Plus) (i : Int) (ws : Bool) (L : List Interval) (r : List Char) (x : Char)
     (h : (marksL plus i ws L ++ r).head? = some x) : x = '(' ∨ x = ')' ∨ r.head? = some x := by
   induction L with
   | nil => right; right; simpa [marksL] using h
@@ -238,7 +238,7 @@ def IvState (n : Int) (dm : Option (Int × Bool)) (i : Int) (L : List Interval) 
     canonOptMods '[' ']' iv.mods = true ∧ canonIntervalList n iv.stop t = true)
 
 /-- closed state: the marks in front of residue `i` (an interval may open) -/
-theorem marks_closed (plus : Bool) (n i : Int) (acc : Annotation) (hlen : Int.ofNat acc.seq.length = i)
+theorem marks_closed (plus : Plus) (n i : Int) (acc : Annotation) (hlen : Int.ofNat acc.seq.length = i)
     (L : List Interval) (hL : canonIntervalList n i L = true) (rest : List Char) :
     ∃ dm', parseMiddle acc none (marksL plus i true L ++ rest) = parseMiddle acc dm' rest ∧
       IvState n dm' (i + 1) L := by
@@ -270,7 +270,7 @@ theorem addInterval_intervals (acc : Annotation) (iv : Interval) (Lpre : List In
   · simp [hp] at h; simp [h]
 
 /-- the marks in front of residue `i` in any state; `Lpre` = the intervals already closed -/
-theorem marks_step (plus : Bool) (n i : Int) (acc : Annotation) (hlen : Int.ofNat acc.seq.length = i)
+theorem marks_step (plus : Plus) (n i : Int) (acc : Annotation) (hlen : Int.ofNat acc.seq.length = i)
     (dm : Option (Int × Bool)) (Lpre L : List Interval) (hpre : ∀ iv ∈ Lpre, iv.start < iv.stop ∧ iv.stop < i)
     (hacc : acc.intervals = optL Lpre) (hst : IvState n dm i L) (rest : List Char)
     (hrest : ∀ x, rest.head? = some x → isAA x = true) :
@@ -360,7 +360,7 @@ theorem canonInternalList_top (n : Int) (D : List (Int × List Mod)) (h : canonI
     omega
 
 /-- the closing pass after the last residue -/
-theorem marks_final (plus : Bool) (n : Int) (acc : Annotation) (hlen : Int.ofNat acc.seq.length = n)
+theorem marks_final (plus : Plus) (n : Int) (acc : Annotation) (hlen : Int.ofNat acc.seq.length = n)
     (dm : Option (Int × Bool)) (Lpre L : List Interval) (hpre : ∀ iv ∈ Lpre, iv.start < iv.stop ∧ iv.stop < n)
     (hacc : acc.intervals = optL Lpre) (hst : IvState n dm n L) (rest : List Char) (hrest : MidStop rest) :
     parseMiddle acc dm (marksL plus n false (Lpre ++ L) ++ rest) =
@@ -399,7 +399,7 @@ theorem marks_final (plus : Bool) (n : Int) (acc : Annotation) (hlen : Int.ofNat
     simp only at this
     simp [this]
 
-theorem midStop_marks (plus : Bool) (i : Int) (ws : Bool) (L : List Interval) (r : List Char)
+theorem midStop_marks (plus : Plus) (i : Int) (ws : Bool) (L : List Interval) (r : List Char)
     (h : ∀ x, r.head? = some x → x ≠ '^' ∧ x.isDigit = false ∧ x ≠ '[') :
     MidStop (marksL plus i ws L ++ r) := by
   have key : ∀ x, (marksL plus i ws L ++ r).head? = some x → x ≠ '^' ∧ x.isDigit = false ∧ x ≠ '[' := by
@@ -410,7 +410,7 @@ theorem midStop_marks (plus : Bool) (i : Int) (ws : Bool) (L : List Interval) (r
     · exact h x h'
   exact ⟨fun x hx => ⟨(key x hx).1, (key x hx).2.1⟩, fun hx => (key '[' hx).2.2 rfl⟩
 
-theorem serializeResidues_eq (plus : Bool) (a : Annotation) (i : Int) (suf : List Char) :
+theorem serializeResidues_eq (plus : Plus) (a : Annotation) (i : Int) (suf : List Char) :
     serializeResidues plus a i suf =
       match suf with
       | [] => marksL plus i false (a.intervals.getD [])
@@ -422,7 +422,7 @@ theorem serializeResidues_eq (plus : Bool) (a : Annotation) (i : Int) (suf : Lis
     simp only [serializeResidues, ivMarks, marksL, internalAt]
     cases a.internal <;> simp [optMods, dictGet]
 
-theorem midStop_residues (plus : Bool) (a : Annotation) (i : Int) (suf : List Char) (hAA : suf.all isAA = true)
+theorem midStop_residues (plus : Plus) (a : Annotation) (i : Int) (suf : List Char) (hAA : suf.all isAA = true)
     (tail : List Char) (ht : MidStop tail) : MidStop (serializeResidues plus a i suf ++ tail) := by
   rw [serializeResidues_eq]
   cases suf with
@@ -440,7 +440,7 @@ theorem optL_getD {α} (l : List α) : (optL l).getD [] = l := by
   unfold optL; split <;> simp_all
 
 /-- **the residues, their modifications and the intervals**: lockstep induction over the sequence -/
-theorem parseMiddle_residues (plus : Bool) (a : Annotation) (n : Int) (suf : List Char) :
+theorem parseMiddle_residues (plus : Plus) (a : Annotation) (n : Int) (suf : List Char) :
     ∀ (acc : Annotation) (dm : Option (Int × Bool)) (i : Int) (Dpre D : List (Int × List Mod)) (Lpre L : List Interval),
       suf.all isAA = true → Int.ofNat acc.seq.length = i → i + Int.ofNat suf.length = n → acc.seq ++ suf = a.seq →
       a.internal.getD [] = Dpre ++ D → (∀ p ∈ Dpre, p.1 < i) → canonInternalList n i D = true →
